@@ -485,6 +485,12 @@ class SFrame:
     def _pyvc_setitem(self, it, idx, v):
         self.assign_col(it, idx, v)
 
+    def _pyvc_setattr(self, it, name, v):
+        # df.<column> = value is column assignment when the column exists (pandas attribute access)
+        if name in self.cols:
+            return self.assign_col(it, name, v)
+        raise Undecided(f"attribute store DataFrame.{name}")
+
     # ---- attributes
     def _pyvc_getattr(self, it, name):
         if name in self.cols and name not in ("index", "columns", "loc", "iloc", "copy", "T"):
